@@ -775,6 +775,10 @@ func (e *Exec) checkFrame(st *State, n ast.Node) {
 			// ghost maps are keyed by references: entries of objects allocated during the call are free
 			conds = []*Term{mkLe(x, alloc0)}
 		}
+		if kind == "mem" {
+			// array 0 is the backing array of nil slices: it has no elements, so nothing can be read from it
+			conds = []*Term{mkLt(tZero, x), mkLe(x, alloc0)}
+		}
 		for _, r := range allowed[id] {
 			conds = append(conds, mkNe(x, r))
 		}
